@@ -412,6 +412,7 @@ pub fn run(report: &mut Report, replay: Option<&Value>) {
     // mutual recursion (listed finding): probe family
     let mut cfg2 = cfg.clone();
     cfg2.gen.fam_mutual_rec = true;
+    cfg2.gen.mutual_rec_percent = 100;
     let tapes = sample_tapes(report.seed, 0xC12C, if report.thorough() { 300 } else { 80 }, 3072);
     let items: Vec<Item> = tapes
         .iter()
